@@ -90,6 +90,23 @@ contract RareForms is RareBase {
         try new Child(a) {
             total = total + 1;
             vals[0] = vals[0] + a;
+            for (uint256 j = 0; j < vals.length; j++) {
+                unchecked {
+                    ++j;
+                }
+                if (j == 3) {
+                    continue;
+                }
+            }
+            while (r < a) {
+                r = r * 2 + 1;
+            }
+            do {
+                r--;
+            } while (r > 100);
+            try target.ping(1, 2) {
+                last = 1;
+            } catch {}
         } catch {
             last++;
         }
